@@ -1,8 +1,8 @@
 #!/bin/bash
-# usage: run_refactors.sh [names…]  — runs every behaviour-preserving refactor in /verif/refactors through all
+# usage: [RF_PROPS="C01 C02"] run_refactors.sh [names…]  — runs every behaviour-preserving refactor in /verif/refactors through all
 # quick checks on scratch copies (8 at a time); a refactor on which any check alarms is a false alarm to fix.
 cd /verif/refactors
 L=${@:-$(ls *.diff | sed 's/.diff//')}
 mkdir -p /tmp/rfres
-printf "%s\n" $L | xargs -P 8 -I{} sh -c '/verif/tools/try_diff.sh /verif/refactors/{}.diff > /tmp/rfres/{}.log 2>&1'
+printf "%s\n" $L | xargs -P 8 -I{} sh -c '/verif/tools/try_diff.sh /verif/refactors/{}.diff $RF_PROPS > /tmp/rfres/{}.log 2>&1'
 for n in $L; do tail -1 /tmp/rfres/$n.log; done
